@@ -1,17 +1,28 @@
 (* C05 - closed theorems for the decoders of every fragment type (Gen/PacketLayouts.v). *)
 From Coq Require Import List NArith ZArith String Bool Lia.
 From Verif Require Import Base.Hex Model.Layout Model.LayoutPrims Gen.PacketLayouts
-  Proofs.C04_layout Proofs.C04_prims Proofs.C04 Proofs.C05_layout Proofs.C05_prims.
+  Proofs.C04_layout Proofs.C04_prims Proofs.GenLemmas Proofs.C05_layout Proofs.C05_prims.
 Import ListNotations.
 Open Scope N_scope.
+
+(* obligation on the regenerated translation: every fragment decoder's layout is well formed at every registered
+   context (io.ReadAll only in tail position, every counted loop's body consumes at least one byte) *)
+Definition wf_entry (e : entry) : bool :=
+  match e with
+  | Fragment _ _ dec ctxs => forallb (wf LP dec) ctxs
+  | Opaque _ _ _ => true
+  end.
+Definition not_wf : list string := map entry_name (filter (fun e => negb (wf_entry e)) packets).
+Theorem C05_wf : not_wf = [].
+Proof. vm_compute. reflexivity. Qed.
 
 Lemma fragment_wf : forall name enc dec ctxs, In (Fragment name enc dec ctxs) packets ->
   forall c, In c ctxs -> wf LP dec c = true.
 Proof.
   intros name enc dec ctxs He c Hc.
-  pose proof (all_entries_checked _ He) as H. cbn [check_entry] in H.
-  rewrite forallb_forall in H. specialize (H c Hc). unfold check_at in H.
-  apply andb_true_iff in H as [_ H]. exact H.
+  pose proof C05_wf as H. unfold not_wf in H. apply map_eq_nil in H.
+  pose proof (filter_nil _ _ H _ He) as Hf. apply negb_false_iff in Hf. cbn [wf_entry] in Hf.
+  rewrite forallb_forall in Hf. exact (Hf c Hc).
 Qed.
 
 Theorem C05_terminates_lemma : forall name enc dec ctxs, In (Fragment name enc dec ctxs) packets ->
